@@ -209,6 +209,29 @@ def check_in_groups(arg):
     return [], 1
 
 
+def check_group_gap(arg):
+    """a group whose members sit at the two ends of a block: the block itself starts in one member and ends in the other, but is not covered"""
+    import ipaddress
+    import cisco_acl
+    base, blen, mlen = arg
+    block = ipaddress.IPv4Network((base >> (32 - blen) << (32 - blen), blen))
+    subs = list(block.subnets(new_prefix=mlen))
+    members = [subs[0], subs[-1]]
+    top = cisco_acl.Address("addrgroup T", platform="nxos")
+    top.items = [cisco_acl.Address(str(m), platform="nxos") for m in members]
+    fails = []
+    for b in [block, subs[0], subs[-1], subs[1], ipaddress.IPv4Network((int(block.network_address), 32)), ipaddress.IPv4Network((int(block.broadcast_address), 32))] + list(block.subnets(prefixlen_diff=1)):
+        want = any(b.subnet_of(m) for m in members)
+        for name, got in (("Address.subnet_of", cisco_acl.Address(str(b), platform="nxos").subnet_of(top)),
+                          ("helpers.subnet_of", cisco_acl.helpers.subnet_of(tops=list(members), bottoms=[b]))):
+            if bool(got) != want:
+                fails.append(dict(key=f"bounded/{name}:group-with-gap:{'wrong-yes' if got else 'missed'}", what=f"{b} against the group {[str(m) for m in members]}: {name} says {got}, containment in one member is {want}",
+                                  inputs=dict(bottom=str(b), group=[str(m) for m in members]),
+                                  cmd=("import sys; sys.path.insert(0, 'props'); import C13\n"
+                                       f"fails, _ = C13.check_group_gap({arg!r})\nprint([f['what'] for f in fails][:3]); sys.exit(1 if fails else 0)\n")))
+    return fails[:3], 1
+
+
 def check_group_random(seed):
     """seeded groups whose members have different prefix lengths, anywhere in the address space, against single networks:
     crafted near misses (the leading bits of one member read at another member's length), true sub-networks, random ones"""
@@ -235,6 +258,19 @@ def check_group_random(seed):
             sub_l = min(32, m.prefixlen + rnd.randint(0, 3))
             bottoms.append(ipaddress.IPv4Network((int(m.network_address) | (rnd.getrandbits(32 - m.prefixlen) >> (32 - sub_l) << (32 - sub_l) if m.prefixlen < 32 else 0), sub_l)))
             bottoms.append(ipaddress.IPv4Network((int(m.network_address), 32)))
+        for m in members:
+            for n in members:
+                if m is not n:
+                    # the smallest network that starts inside one member and ends inside another (the gap between them is not covered)
+                    sup = m
+                    while not (n.subnet_of(sup)) and sup.prefixlen > 0:
+                        sup = sup.supernet()
+                    bottoms.append(sup)
+                    lo, hi = sorted((m, n), key=lambda x: int(x.network_address))
+                    span_l = 32 - max(1, (int(hi.broadcast_address) ^ int(lo.network_address)).bit_length())
+                    cand = ipaddress.IPv4Network((int(lo.network_address) >> (32 - span_l) << (32 - span_l), span_l)) if span_l >= 0 else None
+                    if cand is not None and int(cand.network_address) == int(lo.network_address) and int(cand.broadcast_address) == int(hi.broadcast_address):
+                        bottoms.append(cand)              # first address in one member, last address in the other
         bottoms.append(ipaddress.IPv4Network((rnd.getrandbits(32), 32)))
         top = cisco_acl.Address("addrgroup T", platform="nxos")
         top.items = [cisco_acl.Address(str(m), platform="nxos") for m in members]
@@ -345,6 +381,16 @@ def main(chk):
             chk.finding(f["key"], f["what"], inputs=f["inputs"], cmd=f.get("cmd"), key=f["key"])
     chk.add_bounded("single networks against groups whose members have different prefix lengths (crafted near misses, sub-networks, hosts)", sum(d for _, d in res),
                     sum(d for _, d in res), f"{len(seeds)} x 40 seeded groups of 2..3 members with distinct prefix lengths 4..30", viol, time.time() - t0, [seeds[0]], exhaustive=False)
+    t0 = time.time()
+    gcases = [(b, bl, ml) for b in (0x0A020000, 0xC0A80000, 0x00000000, 0xFFFF0000) for bl, ml in ((24, 30), (24, 26), (16, 24), (22, 23), (30, 32), (8, 16))]
+    res = pmap(check_group_gap, gcases)
+    viol = 0
+    for fails, _ in res:
+        for f in fails:
+            viol += 1
+            chk.finding(f["key"], f["what"], inputs=f["inputs"], cmd=f.get("cmd"), key=f["key"])
+    chk.add_bounded("groups whose two members sit at the ends of a block: the block, its halves and its end addresses", len(gcases), len(gcases),
+                    "4 bases x 6 (block, member) length pairs", viol, time.time() - t0, [list(gcases[0])], exhaustive=True)
     t0 = time.time()
     icases = [(p, kl, il, kr, ir) for p in ("ios", "nxos") for kl, kr in (("AddrGroup", "AddrGroup"), ("AddrGroup", "AddressAg"), ("AddressAg", "AddrGroup"),
                                                                            ("Address-group", "Address"), ("Address-group", "Address-group"), ("Address", "Address-group"))
